@@ -1,8 +1,9 @@
 (** C14 (ObjectSlices are a transparent, lossless encoding): property theorems.
     This file contains statements only; every proof is `exact <lemma>`. *)
 From Coq Require Import List NArith Lia.
-From PKO Require Import Chunk ChunkProofs.
-From PKOCorr Require Import C14Corr.
+From Coq Require Import ZArith Bool.
+From PKO Require Import Util Base Owner Api Phase ObjectSet Chunk ChunkProofs Slices SlicesProofs.
+From PKOCorr Require Import PhaseCorr SetCorr C14Corr C14SliceCorr.
 Import ListNotations.
 Local Open Scope N_scope.
 
@@ -37,3 +38,235 @@ Theorem C14_monitor_sound :
     monitor (bp, limit, sizes, model bp limit sizes) = true.
 Proof. exact monitor_sound. Qed.
 Print Assumptions C14_monitor_sound.
+
+(** * Clause 2: slice names *)
+
+(** reconcileSlice / reconcileSliceWithCollisionCount, for EVERY hash function (collisions included), every
+    content type with a decidable equality and every store of existing slices: the name returned is the
+    function of content and collision count; the slice under that name afterwards holds exactly the requested
+    content and is controlled by the deployment; a name that was held by other content or by a foreign
+    controller is never the one returned; a slice is created exactly when the name was free; no existing
+    slice is modified; every smaller collision count was a genuine clash. *)
+Theorem C14_slice_names :
+  forall (C : Type) (ceqb : C -> C -> bool), (forall x y, ceqb x y = true <-> x = y) ->
+  forall (hash : C -> N -> N) (st : nstore C) (c : C) st' n cc cr,
+    reconcile_slice ceqb hash st c = (st', NUsed n cc cr) ->
+    n = slice_name hash c cc /\
+    nlookup n st' = Some {| es_content := c; es_ctrl := true |} /\
+    (forall e, nlookup n st = Some e -> es_content e = c /\ es_ctrl e = true) /\
+    (cr = true <-> nlookup n st = None) /\
+    (forall m e, nlookup m st = Some e -> nlookup m st' = Some e) /\
+    (forall k, k < cc -> exists e, nlookup (slice_name hash c k) st = Some e /\ (es_content e <> c \/ es_ctrl e = false)).
+Proof. exact @slice_names. Qed.
+Print Assumptions C14_slice_names.
+
+(** The loop needs at most |existing slices|+1 attempts if the hash separates the collision counts of the content. *)
+Theorem C14_slice_loop_terminates :
+  forall (C : Type) (ceqb : C -> C -> bool) (hash : C -> N -> N) (st : nstore C) (c : C),
+    (forall a b, hash c a = hash c b -> a = b) -> snd (reconcile_slice ceqb hash st c) <> NFuel.
+Proof. exact @slice_fuel_suffices. Qed.
+Print Assumptions C14_slice_loop_terminates.
+
+(** chunkPhase: every chunk ends up, in order, in a slice holding exactly its content and controlled by the
+    deployment (hence equal names mean equal content); existing slices are left alone. *)
+Theorem C14_chunk_phase_names :
+  forall (C : Type) (ceqb : C -> C -> bool), (forall x y, ceqb x y = true <-> x = y) ->
+  forall (hash : C -> N -> N) chunks (st st' : nstore C) l,
+    chunk_phase ceqb hash st chunks = (st', Some l) ->
+    length l = length chunks /\
+    Forall2 (fun c x => let '(n, cc, _) := x in
+                        n = slice_name hash c cc /\ nlookup n st' = Some {| es_content := c; es_ctrl := true |}) chunks l /\
+    (forall m e, nlookup m st = Some e -> nlookup m st' = Some e).
+Proof. exact @chunk_phase_names. Qed.
+Print Assumptions C14_chunk_phase_names.
+
+Example C14_slice_names_satisfiable :
+  reconcile_slice N.eqb (fun c cc => c + cc) [(5, {| es_content := 4; es_ctrl := true |}); (6, {| es_content := 5; es_ctrl := false |})] 5
+  = ([(7, {| es_content := 5; es_ctrl := true |}); (5, {| es_content := 4; es_ctrl := true |}); (6, {| es_content := 5; es_ctrl := false |})],
+     NUsed 7 2 true).
+Proof. reflexivity. Qed.
+
+Theorem C14_names_monitor_sound :
+  forall table pre chunks st l,
+    chunk_phase N.eqb (tbl_hash table) pre chunks = (st, Some l) ->
+    nmonitor {| nc_table := table; nc_pre := pre; nc_chunks := chunks; nc_err := false;
+                nc_out := map (fun x => (fst (fst x), snd x)) l; nc_post := st |} = true.
+Proof. exact nmonitor_sound. Qed.
+Print Assumptions C14_names_monitor_sound.
+
+(** * Clause 4: slice garbage collection *)
+
+(** For all templates, ObjectSets and slices: a deleted slice is referenced neither by the template just
+    written nor by any listed ObjectSet. *)
+Theorem C14_gc_safe :
+  forall tmpl sets slices n,
+    In n (slice_gc tmpl sets slices) ->
+    (forall ph, In ph tmpl -> ~ In n ph) /\
+    (forall s ph, In s sets -> g_listed s = true -> In ph (g_refs s) -> ~ In n ph).
+Proof. exact gc_safe. Qed.
+Print Assumptions C14_gc_safe.
+
+(** A referenced slice is never deleted; exactly the labelled unreferenced ones are. *)
+Theorem C14_gc_exact :
+  forall tmpl sets slices n,
+    In n (slice_gc tmpl sets slices) <->
+    exists s, In s slices /\ gs_name s = n /\ gs_labelled s = true /\ ~ In n (gc_referenced tmpl sets).
+Proof. exact slice_gc_spec. Qed.
+Print Assumptions C14_gc_exact.
+
+Example C14_gc_satisfiable :
+  slice_gc [[1]] [{| g_listed := true; g_refs := [[2]] |}; {| g_listed := false; g_refs := [[3]] |}]
+           [{| gs_name := 1; gs_labelled := true |}; {| gs_name := 2; gs_labelled := true |};
+            {| gs_name := 3; gs_labelled := true |}; {| gs_name := 4; gs_labelled := false |}] = [3].
+Proof. reflexivity. Qed.
+
+Theorem C14_gc_monitor_sound :
+  forall tmpl sets slices,
+    gmonitor {| gc_tmpl := tmpl; gc_sets := sets; gc_slices := slices; gc_deleted := slice_gc tmpl sets slices |} = true.
+Proof. exact gmonitor_sound. Qed.
+Print Assumptions C14_gc_monitor_sound.
+
+(** * Clause 3: an ObjectSet that references slices behaves like the same ObjectSet with the objects inline *)
+
+(** The slice loader: if every referenced slice exists, each phase is handed to the phase reconciler with its
+    inline objects followed by the contents of its slices in order; the loader changes nothing but owner
+    references (and resourceVersions) of slices. *)
+Theorem C14_load_slices_concat :
+  forall ns id sphs xs,
+    sphases_exist (xs_store xs) ns sphs ->
+    exists xs' evs,
+      load_slices xs ns id sphs = (xs', evs, Some (map (inline_phase (xs_store xs) ns) sphs)) /\
+      objs_same (xs_store xs) (xs_store xs') /\ erase_slice_events evs = [].
+Proof. exact load_slices_concat. Qed.
+Print Assumptions C14_load_slices_concat.
+
+(** Chunk (Chunk.v), store the chunks as slices, load: the phase's object list comes back unchanged. *)
+Theorem C14_binpack_then_load_identity :
+  forall st ns (size : pobj -> N) limit objs chunks names nm cl,
+    (forall x, 0 < size x) ->
+    binpack size limit objs = Some chunks ->
+    map (slice_objects st ns) names = chunks ->
+    ph_objects (inline_phase st ns {| sp_name := nm; sp_class := cl; sp_objects := []; sp_slices := names |}) = objs.
+Proof. exact binpack_then_load_identity. Qed.
+Print Assumptions C14_binpack_then_load_identity.
+
+Theorem C14_each_then_load_identity :
+  forall st ns (objs : list pobj) names nm cl,
+    map (slice_objects st ns) names = each_object objs ->
+    ph_objects (inline_phase st ns {| sp_name := nm; sp_class := cl; sp_objects := []; sp_slices := names |}) = objs.
+Proof. exact each_then_load_identity. Qed.
+Print Assumptions C14_each_then_load_identity.
+
+(** sliced_equiv_active. For every world, every ObjectSet that is neither deleted nor archived and whose
+    referenced slices exist: one Reconcile pass on the sliced ObjectSet issues exactly the requests of the
+    pass on the ObjectSet with the objects inline (member requests, finalizer, status with revision,
+    conditions, controllerOf), interleaved with owner-reference updates of slices, returns the same result
+    and ends in the corresponding world. *)
+Theorem C14_sliced_equiv_active :
+  forall force x kind ns name mem x' evs r,
+    find_set (sw_sets (xw_sw x)) kind ns name = Some mem ->
+    is_going mem = false ->
+    slices_exist (xs_store (xw_sl x)) (xw_refs x) mem = true ->
+    sliced_pass force x kind ns name = (x', evs, r) ->
+    objectset_pass force (inline_of x) kind ns name = (inline_of x', erase_slice_events evs, r) /\
+    xw_refs x' = xw_refs x /\ objs_same (xs_store (xw_sl x)) (xs_store (xw_sl x')).
+Proof. exact sliced_equiv_active. Qed.
+Print Assumptions C14_sliced_equiv_active.
+
+(** sliced_equiv_teardown is REFUTED for the controller as it is (F-C14): handleDeletionAndArchival runs before
+    the slice loader. Deletion: the inline ObjectSet deletes its object, the sliced one removes its finalizer
+    and is gone without any member request ... *)
+Theorem C14_sliced_teardown_refuted :
+  exists x kind ns name mem,
+    find_set (sw_sets (xw_sw x)) kind ns name = Some mem /\ os_deleting mem = true /\
+    slices_exist (xs_store (xw_sl x)) (xw_refs x) mem = true /\
+    has_delete (ipass_events (objectset_pass false (inline_of x) kind ns name)) = true /\
+    no_member (pass_events (sliced_pass false x kind ns name)) = true /\
+    finalizer_removed (pass_events (sliced_pass false x kind ns name)) = true /\
+    find_set (sw_sets (xw_sw (fst (fst (sliced_pass false x kind ns name))))) kind ns name = None.
+Proof. exact sliced_teardown_refuted. Qed.
+Print Assumptions C14_sliced_teardown_refuted.
+
+(** ... archival: the sliced one reports Archived=True, the object stays, and no later pass touches it. *)
+Theorem C14_sliced_archival_refuted :
+  exists x kind ns name mem,
+    find_set (sw_sets (xw_sw x)) kind ns name = Some mem /\ os_life mem = LArchived /\
+    slices_exist (xs_store (xw_sl x)) (xw_refs x) mem = true /\
+    has_delete (ipass_events (objectset_pass false (inline_of x) kind ns name)) = true /\
+    no_member (pass_events (sliced_pass false x kind ns name)) = true /\
+    archived_reported (pass_events (sliced_pass false x kind ns name)) = true /\
+    (let x' := fst (fst (sliced_pass false x kind ns name)) in
+     lookup {| k_gk := 1; k_ns := 1; k_name := 1 |} (w_store (sw_w (xw_sw x'))) <> None /\
+     sliced_pass false x' kind ns name = (x', [], SNothing)).
+Proof. exact sliced_archival_refuted. Qed.
+Print Assumptions C14_sliced_archival_refuted.
+
+(** The strongest true variant for the controller as it is: a deleted / archived sliced ObjectSet is torn down
+    exactly like the ObjectSet AS STORED, i.e. like its inline part; no slice is read or written.
+    Missing: every object that lives in a slice. *)
+Theorem C14_sliced_equiv_teardown_partial :
+  forall force x kind ns name mem x' evs r,
+    find_set (sw_sets (xw_sw x)) kind ns name = Some mem ->
+    is_going mem = true ->
+    sliced_pass force x kind ns name = (x', evs, r) ->
+    objectset_pass force (xw_sw x) kind ns name = (xw_sw x', erase_slice_events evs, r) /\
+    xw_refs x' = xw_refs x /\ xw_sl x' = xw_sl x /\ slice_events evs = [].
+Proof. exact sliced_equiv_teardown_partial. Qed.
+Print Assumptions C14_sliced_equiv_teardown_partial.
+
+(** ... so it agrees with the inline ObjectSet exactly when the slices contribute no objects. *)
+Theorem C14_sliced_equiv_teardown_no_slice_objects_partial :
+  forall force x kind ns name mem x' evs r,
+    find_set (sw_sets (xw_sw x)) kind ns name = Some mem ->
+    is_going mem = true ->
+    inline_phases (xs_store (xw_sl x)) (xw_refs x) mem = os_phases mem ->
+    sliced_pass force x kind ns name = (x', evs, r) ->
+    objectset_pass force (inline_of x) kind ns name = (inline_of x', erase_slice_events evs, r).
+Proof. exact sliced_equiv_teardown_no_slice_objects. Qed.
+Print Assumptions C14_sliced_equiv_teardown_no_slice_objects_partial.
+
+(** The repair (slices loaded before teardown as well, fixes/C14-load-slices-before-teardown.diff): the
+    equivalence holds in FULL, in every lifecycle state. *)
+Theorem C14_sliced_fixed_equiv :
+  forall force x kind ns name mem x' evs r,
+    find_set (sw_sets (xw_sw x)) kind ns name = Some mem ->
+    slices_exist (xs_store (xw_sl x)) (xw_refs x) mem = true ->
+    sliced_pass_fixed force x kind ns name = (x', evs, r) ->
+    objectset_pass force (inline_of x) kind ns name = (inline_of x', erase_slice_events evs, r) /\
+    xw_refs x' = xw_refs x /\ objs_same (xs_store (xw_sl x)) (xs_store (xw_sl x')).
+Proof. exact sliced_fixed_equiv. Qed.
+Print Assumptions C14_sliced_fixed_equiv.
+
+(** The hypotheses are satisfiable: the witness world with an active ObjectSet; the sliced pass adopts nothing
+    new, re-applies the object of the slice and reports Available. *)
+Example C14_sliced_equiv_satisfiable :
+  find_set (sw_sets (xw_sw (wit_world false LActive))) 1 1 10 = Some (wit_set false LActive) /\
+  is_going (wit_set false LActive) = false /\
+  slices_exist (xs_store (xw_sl (wit_world false LActive))) (xw_refs (wit_world false LActive)) (wit_set false LActive) = true /\
+  negb (no_member (pass_events (sliced_pass false (wit_world false LActive) 1 1 10))) = true.
+Proof. vm_compute. repeat split. Qed.
+
+(** The run-time monitor (sliced observation = inline observation after erasing slice requests) accepts every
+    pass of the repaired wrapper, and every pass of the present one on ObjectSets that are not being torn down;
+    it rejects the witness. *)
+Theorem C14_sliced_monitor_sound_fixed :
+  forall force x kind ns name,
+    xmonitor (xcase_of true force x kind ns name (sliced_pass_fixed force x kind ns name)
+                       (objectset_pass force (inline_of x) kind ns name)) = true.
+Proof. exact xmonitor_sound_fixed. Qed.
+Print Assumptions C14_sliced_monitor_sound_fixed.
+
+Theorem C14_sliced_monitor_sound_active :
+  forall force x kind ns name,
+    xgoing (xcase_of false force x kind ns name (sliced_pass force x kind ns name)
+                     (objectset_pass force (inline_of x) kind ns name)) = false ->
+    xmonitor (xcase_of false force x kind ns name (sliced_pass force x kind ns name)
+                       (objectset_pass force (inline_of x) kind ns name)) = true.
+Proof. exact xmonitor_sound_active. Qed.
+Print Assumptions C14_sliced_monitor_sound_active.
+
+Theorem C14_sliced_monitor_rejects_witness :
+  xmonitor (xcase_of false false (wit_world true LActive) 1 1 10 (sliced_pass false (wit_world true LActive) 1 1 10)
+                     (objectset_pass false (inline_of (wit_world true LActive)) 1 1 10)) = false.
+Proof. exact xmonitor_witness. Qed.
+Print Assumptions C14_sliced_monitor_rejects_witness.
